@@ -51,13 +51,21 @@ func runC04(c *wk.Ctx) {
 	c.Cases(n, func(idx int64, r *wk.Rand) {
 		cfg := gen.Full()
 		var shape *gen.Shape
-		switch r.Intn(6) {
-		case 0, 1:
-			shape = gen.GenScope(r, cfg)
-		case 2:
-			shape = gen.GenObjectStandalone(r, cfg)
-		default:
-			shape = gen.GenType(r, cfg)
+		if tricky := gen.TrickyShapes(); idx < int64(4*len(tricky)) {
+			shape = tricky[int(idx)%len(tricky)]
+			c.Count("tricky_shapes")
+		} else {
+			shape = nil
+		}
+		if shape == nil {
+			switch r.Intn(6) {
+			case 0, 1:
+				shape = gen.GenScope(r, cfg)
+			case 2:
+				shape = gen.GenObjectStandalone(r, cfg)
+			default:
+				shape = gen.GenType(r, cfg)
+			}
 		}
 		t, ok, _ := buildGuarded(shape)
 		if !ok {
@@ -106,6 +114,15 @@ func runC04(c *wk.Ctx) {
 					call(op, mut, where)
 				}
 				c.Count("hostile-inside:" + name)
+			}
+			for i := 0; i < 4; i++ {
+				if mut, where, ok := gen.InsertOddKey(r, gen.CopyRaw(raw)); ok {
+					for _, op := range c04Ops {
+						call(op, mut, "odd-key")
+					}
+					_ = where
+					c.Count("odd_key_insertions")
+				}
 			}
 			for i := 0; i < 3; i++ {
 				rep := gen.Represent(r, gen.CopyRaw(raw), shape, env, 0)
